@@ -298,7 +298,8 @@ def plan(tier):
     q = tier == 'quick'
     shards = []
     for kind in KINDS:
-        shards.append({'kind': 'crash', 'data_kind': kind, 'values': 2 if q else 40, 'prefixes': 'marks' if q else 'all'})
+        shards.append({'kind': 'crash', 'data_kind': kind, 'values': (1 if kind in ('list_numpy', 'figure') else 2) if q else 40,
+                       'prefixes': 'marks' if q else 'all'})
     shards.append({'kind': 'raised', 'examples': 1})
     return shards
 
